@@ -50,35 +50,35 @@ const compStub = "Storage (in-memory, parks at every call), login UI, service pr
 const ruleGeneric = "cases are whole simulated executions drawn by pgregory.net/rapid from one seed (world configuration + step list + faults); a case is non-trivial when at least one fault fired or at least two tasks were interleaved (≥2 task switches between resumes); distinct = distinct (schedule signature × outcome signature) among the non-trivial ones, counted by hash"
 
 var props = map[string]propCfg{
-	"C01": {Level: "exploration", QuickRuns: 1500, QuickBud: 22 * time.Second, ThorRuns: 200000, ThorBud: 10 * time.Minute,
+	"C01": {Level: "exploration", QuickRuns: 4000, QuickBud: 22 * time.Second, ThorRuns: 200000, ThorBud: 10 * time.Minute,
 		Required: []string{"callback_raced_completion", "callback_success", "storage_err", "request_deleted", "restart"}},
-	"C09": {Level: "exploration", QuickRuns: 1200, QuickBud: 22 * time.Second, ThorRuns: 200000, ThorBud: 10 * time.Minute,
+	"C09": {Level: "exploration", QuickRuns: 4000, QuickBud: 22 * time.Second, ThorRuns: 200000, ThorBud: 10 * time.Minute,
 		Rule:     "stage 1 sweeps completely every single structural edit (delete / duplicate / empty each element, delete / empty / duplicate each attribute) of 7 base messages (AuthnRequest redirect / POST signed / redirect signed, LogoutRequest POST / redirect, AttributeQuery unsigned / signed incl. the SOAP envelope) and of the stored metadata of 2 SPs; stage 2 draws random worlds with corrupted SP metadata, deviating / tampered / raw / torn requests (up to 3 edits per message) under storage faults. Non-trivial: at least one fault or edit fired or two tasks interleaved; distinct by (schedule × outcome) hash",
 		Required: []string{"handler_ran", "sp_metadata_corrupt", "tamper_dropElem", "tamper_dropAttr", "tamper_swap_sigalg", "body_eof_at", "storage_err"}},
-	"C10": {Level: "fault_enumeration", QuickRuns: 1200, QuickBud: 25 * time.Second, ThorRuns: 200000, ThorBud: 10 * time.Minute,
-		Rule:     "stage 1 enumerates completely: 4 provider configurations × 12 workloads × {no bystander, callback bystander, metadata bystander} × every storage call of the workload's trace × every fault kind the property names for that operation, singly and in all pairs (second fault anywhere in the trace as it unfolds after the first); stage 2 draws random fault schedules over random worlds with pgregory.net/rapid. A case is non-trivial when at least one fault fired or at least two tasks were interleaved; distinct = distinct (schedule signature × outcome signature), counted by hash",
+	"C10": {Level: "fault_enumeration", QuickRuns: 4000, QuickBud: 25 * time.Second, ThorRuns: 200000, ThorBud: 10 * time.Minute,
+		Rule:     "stage 1 enumerates completely: 4 provider configurations × 12 workloads × {no bystander, callback bystander, metadata bystander, warm-up by an earlier callback, warm-up by an earlier metadata request} × every storage call of the workload's trace × every fault kind the property names for that operation, singly and in all pairs (second fault anywhere in the trace as it unfolds after the first); stage 2 draws random fault schedules over random worlds with pgregory.net/rapid. A case is non-trivial when at least one fault fired or at least two tasks were interleaved; distinct = distinct (schedule signature × outcome signature), counted by hash",
 		Required: []string{"storage_err", "storage_nil_record", "storage_key_without_cert", "storage_cert_without_key", "storage_empty_cert", "alg_unusable", "bystander_during_fault", "recovery_request"}},
-	"C02": {Level: "exploration", QuickRuns: 1500, QuickBud: 22 * time.Second, ThorRuns: 200000, ThorBud: 10 * time.Minute,
+	"C02": {Level: "exploration", QuickRuns: 4000, QuickBud: 22 * time.Second, ThorRuns: 200000, ThorBud: 10 * time.Minute,
 		Required: []string{"persisted_pair_checked", "sso_error_reply_target_checked", "callback_target_checked", "callback_after_reregistration", "logout_target_checked", "sp_reregistered", "tamper_field"}},
-	"C03": {Level: "exploration", QuickRuns: 1500, QuickBud: 22 * time.Second, ThorRuns: 200000, ThorBud: 10 * time.Minute,
+	"C03": {Level: "exploration", QuickRuns: 4000, QuickBud: 22 * time.Second, ThorRuns: 200000, ThorBud: 10 * time.Minute,
 		Required: []string{"success_assertion_checked", "issueinstant_checked_at_exact_instant", "advance_while_parked", "key_rotated"}},
-	"C04": {Level: "exploration", QuickRuns: 1500, QuickBud: 22 * time.Second, ThorRuns: 200000, ThorBud: 10 * time.Minute,
+	"C04": {Level: "exploration", QuickRuns: 4000, QuickBud: 22 * time.Second, ThorRuns: 200000, ThorBud: 10 * time.Minute,
 		Required: []string{"enveloped_signature_checked", "redirect_signature_checked", "metadata_signature_checked", "key_rotated"}},
-	"C05": {Level: "exploration", QuickRuns: 1500, QuickBud: 22 * time.Second, ThorRuns: 200000, ThorBud: 10 * time.Minute,
+	"C05": {Level: "exploration", QuickRuns: 4000, QuickBud: 22 * time.Second, ThorRuns: 200000, ThorBud: 10 * time.Minute,
 		Required: []string{"sso_accepted", "accepted_while_signing_required", "accepted_with_valid_signature", "signed_request_rejected", "tamper_wrap", "tamper_sig_flip", "tamper_strip_sig", "sp_reregistered"}},
-	"C06": {Level: "exploration", QuickRuns: 1500, QuickBud: 22 * time.Second, ThorRuns: 200000, ThorBud: 10 * time.Minute,
+	"C06": {Level: "exploration", QuickRuns: 4000, QuickBud: 22 * time.Second, ThorRuns: 200000, ThorBud: 10 * time.Minute,
 		Required: []string{"sso_accepted", "nonconformant_rejected", "now_equals_notonorafter", "now_equals_notbefore", "sp_skew", "delay"}},
-	"C07": {Level: "exploration", QuickRuns: 1500, QuickBud: 22 * time.Second, ThorRuns: 200000, ThorBud: 10 * time.Minute,
+	"C07": {Level: "exploration", QuickRuns: 4000, QuickBud: 22 * time.Second, ThorRuns: 200000, ThorBud: 10 * time.Minute,
 		Required: []string{"conformant_sso_accepted", "conformant_slo_accepted", "conformant_attrq_accepted"}},
-	"C11": {Level: "exploration", QuickRuns: 1500, QuickBud: 22 * time.Second, ThorRuns: 200000, ThorBud: 10 * time.Minute,
+	"C11": {Level: "exploration", QuickRuns: 4000, QuickBud: 22 * time.Second, ThorRuns: 200000, ThorBud: 10 * time.Minute,
 		Required: []string{"metadata_checked", "certificate_endpoint_checked", "issuer_compared_with_entityid", "probe_sso", "probe_slo", "probe_attr", "want_signed_compared", "want_signed_advertised", "key_rotated"}},
-	"C12": {Level: "exploration", QuickRuns: 1500, QuickBud: 22 * time.Second, ThorRuns: 200000, ThorBud: 10 * time.Minute,
+	"C12": {Level: "exploration", QuickRuns: 4000, QuickBud: 22 * time.Second, ThorRuns: 200000, ThorBud: 10 * time.Minute,
 		Required: []string{"attrq_answered", "attrq_refused", "attrq_filtered", "attrq_answered_with_advertised_destination", "key_rotated", "storage_err"}},
-	"C13": {Level: "exploration", QuickRuns: 1500, QuickBud: 22 * time.Second, ThorRuns: 200000, ThorBud: 10 * time.Minute,
+	"C13": {Level: "exploration", QuickRuns: 4000, QuickBud: 22 * time.Second, ThorRuns: 200000, ThorBud: 10 * time.Minute,
 		Required: []string{"logout_success", "logout_failure", "now_equals_notonorafter", "now_equals_issueinstant", "sp_reregistered", "sp_deleted", "sp_skew"}},
-	"C15": {Level: "exploration", QuickRuns: 1200, QuickBud: 25 * time.Second, ThorRuns: 200000, ThorBud: 12 * time.Minute, Race: true,
+	"C15": {Level: "exploration", QuickRuns: 4000, QuickBud: 25 * time.Second, ThorRuns: 200000, ThorBud: 12 * time.Minute, Race: true,
 		Required: []string{"request_overlapped_another", "message_id_checked", "overlap_window"}},
-	"C08": {Level: "exploration", QuickRuns: 1500, QuickBud: 22 * time.Second, ThorRuns: 200000, ThorBud: 10 * time.Minute,
+	"C08": {Level: "exploration", QuickRuns: 4000, QuickBud: 22 * time.Second, ThorRuns: 200000, ThorBud: 10 * time.Minute,
 		Required: []string{"sso_persisted", "sso_not_persisted", "storage_err", "body_error_at"}},
 }
 
@@ -87,6 +87,7 @@ type violation struct {
 	Digest                        string `json:"history_digest"`
 	Task                          int
 	Replay                        string `json:"replay"`
+	PrefixReplay                  string `json:"prefix_replay"`
 	StepsBefore                   int    `json:"steps_before_shrinking"`
 	StepsAfter                    int    `json:"steps_after_shrinking"`
 }
@@ -356,11 +357,24 @@ func main() {
 		}
 		d, _ := realIDs["duplicates"].(float64)
 		il, _ := realIDs["illegal"].(float64)
-		if d > 0 || il > 0 {
+		pn, _ := realIDs["panics"].(float64)
+		// the same stage, smaller, under the race detector
+		raceOut, _ := func() ([]byte, error) {
+			c := exec.Command(raceBin, "-test.run", "^TestRealIDs$", "-test.timeout", "0", "-realids", "32000")
+			c.Env = append(os.Environ(), "GOMAXPROCS=8", "GORACE=halt_on_error=0")
+			return c.CombinedOutput()
+		}()
+		raced := bytes.Contains(raceOut, []byte("WARNING: DATA RACE")) && bytes.Contains(raceOut, []byte("github.com/zitadel/saml/"))
+		realIDs["data_race_in_id_generation"] = raced
+		if d > 0 || il > 0 || pn > 0 || raced {
 			path := filepath.Join(verifDir, "replays", fmt.Sprintf("C15-realids-%d.json", seed))
 			nb, _ := json.MarshalIndent(map[string]any{"format": 1, "property": "C15", "stage": "realids", "ids": n, "result": realIDs}, "", " ")
 			os.WriteFile(path, nb, 0o644)
-			fmt.Printf("  rule: C15.4 ids (real randomness source)\n  observed: %s\nVIOLATION property=C15 replay=%s\n", string(b), path)
+			obs := string(b)
+			if raced {
+				obs += "\n" + abbreviate(string(raceOut), 2500)
+			}
+			fmt.Printf("  rule: C15.4 ids (real randomness source, 16 goroutines)\n  key: C15:ids:real-source\n  expected: pairwise distinct legal IDs, no panic, no data race\n  observed: %s\nVIOLATION property=C15 replay=%s\n", obs, path)
 			os.Exit(1)
 		}
 	}
@@ -368,7 +382,7 @@ func main() {
 
 	// every violation must reproduce from its replay file in a fresh process
 	seenKey := map[string]bool{}
-	var confirmed []*violation
+	var confirmed, unconfirmed []*violation
 	for _, v := range viols {
 		if seenKey[v.Key] {
 			continue
@@ -378,12 +392,30 @@ func main() {
 		if strings.HasPrefix(v.Key, "C15:race") {
 			b = raceBin
 		}
-		if !replayOK(b, v.Replay) {
-			die(2, "replay of %s did not reproduce %s — harness error, not reported as a violation", v.Replay, v.Key)
+		ok := replayOK(b, v.Replay)
+		for try := 0; !ok && try < 4 && strings.Contains(v.Replay, "-w") && isRaceWorker(cfg, v.Replay); try++ {
+			ok = replayOK(raceBin, v.Replay) // overlap windows really overlap: the verdict of an isolation oracle may need a few tries
+		}
+		if !ok {
+			// the minimised plan alone does not reproduce: does the violation depend on state the library carried over from
+			// earlier runs of the same process? Then the worker's case sequence up to the failing case reproduces it.
+			if v.PrefixReplay != "" && prefixReplayOK(b, v.PrefixReplay) {
+				fmt.Printf("vcheck: %s reproduces only together with the runs that preceded it in the same process (state kept by the library across requests); reporting the unminimised process-prefix replay\n", v.Key)
+				v.Replay = v.PrefixReplay
+			} else {
+				unconfirmed = append(unconfirmed, v)
+				continue
+			}
 		}
 		confirmed = append(confirmed, v)
 	}
 
+	if len(confirmed) == 0 && len(unconfirmed) > 0 {
+		die(2, "replay of %s did not reproduce %s — harness error, not reported as a violation", unconfirmed[0].Replay, unconfirmed[0].Key)
+	}
+	for _, v := range unconfirmed {
+		fmt.Printf("vcheck: note: %s (worker replay %s) did not reproduce in a fresh process and is not reported\n", v.Key, v.Replay)
+	}
 	missing := []string{}
 	if tier == "thorough" {
 		for _, p := range cfg.Required {
@@ -456,6 +488,31 @@ func main() {
 	fmt.Printf("vcheck: property %s held on everything explored\n", prop)
 }
 
+// isRaceWorker: odd workers of a property with a race stage run in race mode (see the worker fan-out).
+func isRaceWorker(cfg propCfg, replay string) bool {
+	if !cfg.Race {
+		return false
+	}
+	i := strings.Index(replay, "-w")
+	if i < 0 {
+		return false
+	}
+	n := 0
+	for _, c := range replay[i+2:] {
+		if c < '0' || c > '9' {
+			break
+		}
+		n = n*10 + int(c-'0')
+	}
+	return n%2 == 1
+}
+
+func prefixReplayOK(bin, path string) bool {
+	cmd := exec.Command(bin, "-test.run", "^TestPrefixReplay$", "-test.timeout", "0", "-prefixreplay", path)
+	out, _ := cmd.CombinedOutput()
+	return bytes.Contains(out, []byte("REPLAY-REPRODUCED"))
+}
+
 func replayOK(bin, path string) bool {
 	cmd := exec.Command(bin, "-test.run", "^TestReplay$", "-test.timeout", "0", "-replay", path)
 	cmd.Env = append(os.Environ(), "GORACE=halt_on_error=1 exitcode=66")
@@ -471,12 +528,32 @@ func replay(path string) {
 		bin := build(false)
 		out, _ := exec.Command(bin, "-test.run", "^TestRealIDs$", "-test.timeout", "0", "-realids", "2000000").CombinedOutput()
 		os.Stdout.Write(out)
-		if bytes.Contains(out, []byte(`"duplicates":0`)) && bytes.Contains(out, []byte(`"illegal":0`)) {
+		raceOut, _ := exec.Command(build(true), "-test.run", "^TestRealIDs$", "-test.timeout", "0", "-realids", "32000").CombinedOutput()
+		raced := bytes.Contains(raceOut, []byte("WARNING: DATA RACE")) && bytes.Contains(raceOut, []byte("github.com/zitadel/saml/"))
+		if raced {
+			os.Stdout.Write(raceOut[:min(len(raceOut), 4000)])
+		}
+		if !raced && bytes.Contains(out, []byte(`"duplicates":0`)) && bytes.Contains(out, []byte(`"illegal":0`)) && bytes.Contains(out, []byte(`"panics":0`)) {
 			fmt.Println("vcheck: the ID stage found no duplicate or illegal ID on this tree")
 			return
 		}
 		fmt.Printf("VIOLATION property=C15 replay=%s\n", path)
 		os.Exit(1)
+	}
+	if strings.HasSuffix(path, ".prefix.json") {
+		bin := build(false)
+		out, _ := exec.Command(bin, "-test.run", "^TestPrefixReplay$", "-test.timeout", "0", "-prefixreplay", path).CombinedOutput()
+		os.Stdout.Write(out)
+		prop := strings.SplitN(filepath.Base(path), "-", 2)[0]
+		if bytes.Contains(out, []byte("REPLAY-REPRODUCED")) {
+			fmt.Printf("VIOLATION property=%s replay=%s\n", prop, path)
+			os.Exit(1)
+		}
+		if bytes.Contains(out, []byte("REPLAY-ERROR")) {
+			os.Exit(2)
+		}
+		fmt.Println("vcheck: replay did not reproduce the recorded violation on this tree")
+		return
 	}
 	raceMode := strings.Contains(filepath.Base(path), "C15-race")
 	bin := build(raceMode)
